@@ -9,6 +9,7 @@ open Neutrino.GetCFilter
 #print axioms C05_fail_closed
 #print axioms C05_range
 #print axioms C05_range_total
+#print axioms C05_index_aligned
 #print axioms C05_no_query_above_tip
 #print axioms C05_prepared_target_committed
 #print axioms C05_source_facts
